@@ -20,6 +20,9 @@ CATALOG = {
     },
     "C03": {
         "drivers": [("construct", {"quick": 400, "thorough": 20000}, {})],
+        "models": [{"module": "MC_Attr", "cfg": {"quick": "MC_Attr_quick", "thorough": "MC_Attr_thorough"},
+                    "extract": "attr_vectors", "replay": "run_attr_vector", "chunk": 60,
+                    "limit": {"quick": 3000, "thorough": 100000}}],
     },
     "C04": {
         "drivers": [("align", {"quick": 400, "thorough": 20000}, {})],
@@ -82,6 +85,9 @@ CATALOG = {
     },
     "C16": {
         "drivers": [("text", {"quick": 400, "thorough": 15000}, {})],
+        "models": [{"module": "MC_Text", "cfg": {"quick": "MC_Text_quick", "thorough": "MC_Text_thorough"},
+                    "extract": "text_vectors", "replay": "run_text_vector", "chunk": 60,
+                    "limit": {"quick": 6000, "thorough": 100000}}],
     },
     "C20": {
         "drivers": [("keys", {"quick": 400, "thorough": 20000}, {})],
